@@ -1,4 +1,4 @@
 Require Import ExtrOcamlBasic ExtrOcamlNativeString.
-Require Import MPSV.Ctx.ResizeModel MPSV.Ctx.ErrorModel.
+Require Import MPSV.Ctx.ResizeModel MPSV.Ctx.ErrorModel MPSV.Ctx.ApiModel.
 Extraction "../ocaml/ctx.ml" ResizeModel.step ResizeModel.empty_state ResizeModel.all_arrs ResizeModel.solve_prepare
-  ResizeModel.config ErrorModel.mps_error ErrorModel.intended ErrorModel.mpsolve_async.
+  ResizeModel.config ApiModel.wstep ApiModel.wempty ErrorModel.mps_error ErrorModel.intended ErrorModel.mpsolve_async.
